@@ -11,8 +11,10 @@ VARIABLES kind,    \* transaction kind
           pc,      \* next step of CommitSteps
           mem,     \* component -> TRUE when the NEW value is what readers get
           disk,    \* TRUE when the database holds the new state (entries, ruv, ts_max together)
+          widx,    \* index tables as the open SQL transaction sees them: "old" | "purged" | "empty" | "new"
+          didx,    \* index tables as they are durably in the database file
           status   \* "run" | "ok" | "failed" | "abandoned" | "crashed" | "recovered"
-vars == <<kind, ev, pc, mem, disk, status>>
+vars == <<kind, ev, pc, mem, disk, widx, didx, status>>
 
 Comps == {CommitSteps[i].c : i \in {i \in 1..NSteps : CommitSteps[i].t = "P"}}
 AllOld == [c \in Comps |-> FALSE]
@@ -22,29 +24,36 @@ Events == {[t |-> "none", k |-> 0], [t |-> "abandon", k |-> 0]}
           \cup {[t |-> "crash", k |-> i] : i \in {i \in 1..NSteps : CommitSteps[i].t \in {"S", "C"}}}
 
 Init == /\ kind \in Kinds /\ ev \in Events
-        /\ pc = 1 /\ mem = AllOld /\ disk = FALSE /\ status = "run"
+        /\ pc = 1 /\ mem = AllOld /\ disk = FALSE /\ widx = "old" /\ didx = "old" /\ status = "run"
 
 Abandon == /\ status = "run" /\ pc = 1 /\ ev.t = "abandon"
-           /\ status' = "abandoned" /\ UNCHANGED <<kind, ev, pc, mem, disk>>
+           /\ status' = "abandoned" /\ UNCHANGED <<kind, ev, pc, mem, disk, widx, didx>>
 
 Step == /\ status = "run" /\ pc <= NSteps /\ ev.t # "abandon"
         /\ LET s == CommitSteps[pc] IN
            IF ev.k = pc /\ ev.t = "fail" THEN
                 \* the storage call returns an error: `?` propagates, write halves are dropped,
                 \* the SQLite transaction rolls back
-                /\ status' = "failed" /\ UNCHANGED <<pc, mem, disk>>
+                /\ status' = "failed" /\ widx' = didx /\ UNCHANGED <<pc, mem, disk, didx>>
            ELSE IF ev.k = pc /\ ev.t = "crash" THEN
-                /\ status' = "crashed" /\ mem' = AllOld /\ UNCHANGED <<pc, disk>>
+                /\ status' = "crashed" /\ mem' = AllOld /\ widx' = didx /\ UNCHANGED <<pc, disk, didx>>
            ELSE /\ pc' = pc + 1
                 /\ mem' = IF s.t = "P" /\ s.c \in Changed(kind) THEN [mem EXCEPT ![s.c] = TRUE] ELSE mem
                 /\ disk' = IF s.c = "sql_commit" THEN TRUE ELSE disk
+                \* index purge + rebuild, step by step, inside the SQL transaction; durable only at COMMIT
+                /\ widx' = IF ~Reindexing(kind) THEN widx
+                           ELSE CASE s.c = "idx_purge"  -> "purged"
+                                  [] s.c = "idx_create" -> "empty"
+                                  [] s.c = "idl"        -> "new"     \* rebuilt lists flushed
+                                  [] OTHER -> widx
+                /\ didx' = IF s.c = "sql_commit" THEN widx ELSE didx
                 /\ status' = IF pc = NSteps THEN "ok" ELSE "run"
         /\ UNCHANGED <<kind, ev>>
 
 \* restart: everything in memory is rebuilt from the database
 Recover == /\ status = "crashed"
            /\ mem' = [c \in Comps |-> disk /\ c \in Changed(kind)]
-           /\ status' = "recovered" /\ UNCHANGED <<kind, ev, pc, disk>>
+           /\ status' = "recovered" /\ UNCHANGED <<kind, ev, pc, disk, widx, didx>>
 
 Next == Abandon \/ Step \/ Recover
 Spec == Init /\ [][Next]_vars
@@ -61,7 +70,12 @@ L1Strict  == status \in {"failed", "abandoned"} =>
                 /\ {c \in VisibleComps : mem[c]} = (IF status = "failed" THEN AheadAt(kind, ev.k) ELSE {})
 L1Success == status = "ok" => disk /\ \A c \in Changed(kind) \cap Comps : mem[c]
 \* C05: recovered state is uniformly old or uniformly new
-L1Crash   == status = "recovered" => \A c \in Changed(kind) \cap Comps : mem[c] = disk
+L1Crash   == status = "recovered" =>
+                /\ \A c \in Changed(kind) \cap Comps : mem[c] = disk
+                \* the index tables found in the file belong to the same state as the entries
+                /\ didx = (IF disk /\ Reindexing(kind) THEN "new" ELSE "old")
+\* a failed or abandoned transaction leaves the durable index tables alone as well
+L1IdxFail == status \in {"failed", "abandoned"} => didx = "old"
 
 \* ------------------------------------------------------------------ hypotheses for the replay
 Hyp == (status = "failed" /\ AheadAt(kind, ev.k) # {}) =>
